@@ -265,7 +265,7 @@ def shard(cfg):
         sel, roots, mode, choices = case
         check_case(sel, roots, mode, choices, rec)
 
-    n, v, herr = hyp_search(strat, body, seed=cfg["seed"] * 1000 + cfg["shard"], max_examples=cfg["examples"])
+    n, v, herr = hyp_search(strat, body, seed=cfg["seed"] * 1000 + cfg["shard"], max_examples=cfg["examples"], case_cpu_s=30.0)
     res = rec.result()
     if v is not None:
         sel, roots, mode, choices = v.case
